@@ -46,6 +46,9 @@ def sid_strings(ctx):
     # sub-authority, a sign — a grammar check that stops at the maximum length would let the rest through to int()
     longest = "S-1-281474976710655" + "-4294967295" * 15
     out += [longest + x for x in ("\n", " ", "\t", "\r\n", "-7", "-0", "0", "-", "x", "\x00", " 1", "\u00a0")]
+    # strings that are templates for one text-formatting mechanism or another (the rejected string usually ends up in the error message)
+    out += ["{S-1-5-18}", "{sid}", "S-1-5-21-{domain}-500", "S-1-5-{}", "S-1-5-21-{1}-{2}-{3}-1104", "S-1-5-{!r}", "S-1-5-{0.real}", "S-1-5-{0}", "S-1-5-%s", "S-1-5-%(sid)s",
+            "S-1-5-%d", "S-1-5-${sid}", "S-1-5-\\1", "S-1-5-{0:>9999999999}", "S-1-5-{", "S-1-5-}", "S-1-5-%", "S-1-5-4294967296-{}", "S-1-281474976710656-{x}"]
     out += ["S-1-5" + "-00000000001" * 15 + x for x in ("-7", "\n", "")] + ["S-1-5" + "-0000000001" * 15 + x for x in ("-7", "\n", " ")]
     return out
 
